@@ -139,6 +139,7 @@ def run(tier, seed, only=None):
         run_obligations(rep, "ScaleFromPrandtlGlauert[%s]" % cn, obs, timeout, replay=rp_sf, levels=(1, 2), family=lambda ob: "ScaleFromPrandtlGlauert: " + ob.meta["family"],
                         fixed={"Mach_number[0]": 0.5})
     kernel_covariance(rep, timeout)
+    group_level(rep, tier, timeout)
     rep.bounds = {"cases": [c[0] for c in cfgs]}
     rep.assumptions = ["real arithmetic", "0 <= M < 0.95", "kernel covariance: both configurations outside the 1e-10 kernel tolerance band"]
     return rep.finish("C09 (reduced): algebraic identities of the PG pipeline components (rotation matrix, inverse rotation, scaling exponents, "
@@ -193,3 +194,150 @@ def replay_file(path):
     print("recorded counterexample: %s" % spec.get("what"))
     print("VIOLATION property=%s replay=%s" % (PID, path))
     return 1
+
+
+def group_level(rep, tier, timeout):
+    """The real CompressibleVLMStates group (inside a real AeroPoint(compressible=True)) executed through its own
+    connections, against the real incompressible VLMStates executed the same way on the transformed problem:
+    mesh and normals rotated by Tw(alpha, beta) and Prandtl-Glauert scaled, alpha = beta = 0, same v, rho and circulations.
+    Residual of the implicit solve: equal.  Sectional forces: Tw^T diag(1/B^4, 1/B^3, 1/B^3) of the transformed ones."""
+    from props import groups
+    from symoas import kernels, pipe
+    from symoas.sym import PI
+
+    cfgs = [("symL_2x2", [K.surface(2, 2, True)])]
+    if tier == "thorough":
+        cfgs += [("symL_2x2+full_2x3", [K.surface(2, 2, True), K.surface(2, 3, False, name="tail")])]
+    for cn, ss in cfgs:
+        al, be, M = symarray("alpha", (1,)), symarray("beta", (1,)), symarray("Mach_number", (1,))
+        v, rho = symarray("v", (1,)), symarray("rho", (1,))
+        a_, b_ = al[0] * PI / 180, be[0] * PI / 180
+        T = Tw(a_, b_)
+        B = sqrt(ONE - M[0] * M[0])
+        adm = [ge(M[0], 0), lt(M[0], S(0.95))]
+        meshes, normals, meshes_t, normals_t = {}, {}, {}, {}
+        for s in ss:
+            n = s["name"]
+            nx, ny = s["mesh"].shape[:2]
+            m = symarray(n + "_def_mesh", (nx, ny, 3))
+            if s["symmetry"]:
+                for i in range(nx):
+                    m[i, ny - 1, 1] = ZERO
+            N = symarray(n + "_normals", (nx - 1, ny - 1, 3))
+            mt, Nt = np.empty(m.shape, dtype=object), np.empty(N.shape, dtype=object)
+            for idx in np.ndindex(nx, ny):
+                r = matvec(T, [m[idx + (k,)] for k in range(3)])
+                mt[idx + (0,)], mt[idx + (1,)], mt[idx + (2,)] = r[0], r[1] * B, r[2] * B
+            for idx in np.ndindex(nx - 1, ny - 1):
+                r = matvec(T, [N[idx + (k,)] for k in range(3)])
+                Nt[idx + (0,)], Nt[idx + (1,)], Nt[idx + (2,)] = r[0] * B, r[1], r[2]
+            meshes[n], normals[n], meshes_t[n], normals_t[n] = m, N, mt, Nt
+        npan = sum((s["mesh"].shape[0] - 1) * (s["mesh"].shape[1] - 1) for s in ss)
+        gam = symarray("circulations", (npan,))
+        root = "aero_point_0.aero_states"
+
+        def run(compressible, ms, ns, a, b):
+            prob = groups.aeropoint_problem(ss, compressible=compressible)
+            GP = pipe.GroupPipe(prob, root=root, extra=kernels.EVAL_MTX_STUBS)
+            ext = {"alpha": a, "beta": b, "v": v, "rho": rho, "Mach_number": M}
+            for s in ss:
+                ext[s["name"] + "_def_mesh"] = ms[s["name"]]
+                ext["aero_point_0.%s.normals" % s["name"]] = ns[s["name"]]
+            GP.run(external=ext, states={root + ".solve_matrix.circulations": gam})
+            return GP
+
+        Gc = run(True, meshes, normals, al, be)
+        G0 = run(False, meshes_t, normals_t, np.array([ZERO], dtype=object), np.array([ZERO], dtype=object))
+        Gc.encode(rep)
+        unexpected = [k for k in list(Gc.guesses) + list(G0.guesses) if not k.endswith("normals")]
+        if unexpected:
+            rep.errors.append("C09 group level: inputs of the states group not supplied: %r" % (unexpected[:4],))
+        obs = []
+        Rc, R0 = Gc.resid[root + ".solve_matrix.circulations"], G0.resid[root + ".solve_matrix.circulations"]
+        for r in range(npan):
+            obs.append(oblig.Ob("residual[%d]" % r, lhs=S(Rc[r]), rhs=S(R0[r]), assume=adm,
+                                meta={"family": "compressible states solve the incompressible system of the transformed geometry", "kind": "res"}))
+        for s in ss:
+            n = s["name"]
+            Fc, F0 = Gc.get(root + ".%s_sec_forces" % n), G0.get(root + ".%s_sec_forces" % n)
+            for idx in np.ndindex(*Fc.shape[:-1]):
+                w = [F0[idx + (0,)] / B**4, F0[idx + (1,)] / B**3, F0[idx + (2,)] / B**3]
+                back = [sum((T[k][i] * w[k] for k in range(3)), ZERO) for i in range(3)]  # Tw^T
+                for k in range(3):
+                    obs.append(oblig.Ob("%s_sec_forces%s" % (n, list(idx + (k,))), lhs=Fc[idx + (k,)], rhs=back[k], assume=adm,
+                                        meta={"family": "compressible sectional forces are the transformed-problem forces scaled by 1/B^4, 1/B^3 and rotated back", "kind": "F", "surf": n, "idx": list(idx + (k,))}))
+
+        def rp(ob, env, ss=ss):
+            return replay_group(ss)
+
+        run_obligations(rep, "real CompressibleVLMStates vs VLMStates on the transformed problem [%s]" % cn, obs, timeout, levels=(1, 2), replay=rp,
+                        family=lambda ob: "CompressibleVLMStates: " + ob.meta["family"], fixed={"Mach_number[0]": 0.5})
+    normals_lemma(rep, timeout)
+
+
+def normals_lemma(rep, timeout):
+    """the Prandtl-Glauert-transformed normal (B n_x, n_y, n_z) of the rotated panel is a positive multiple of the true
+    unit normal of the rotated and stretched panel, so both tangency conditions have the same solution"""
+    from symoas.sym import PI
+
+    s = K.surface(2, 2, True)  # one panel; VLMGeometry's normals do not involve the symmetry flag
+    geo = SymComp(A + "geometry", "VLMGeometry", surface=s)
+    rep.encode(type(geo.comp))
+    al, be, M = var("alpha"), var("beta"), var("M")
+    T = Tw(al, be)
+    B = sqrt(ONE - M * M)
+    m = symarray("mesh", (2, 2, 3))
+    mt = np.empty(m.shape, dtype=object)
+    for idx in np.ndindex(2, 2):
+        r = matvec(T, [m[idx + (k,)] for k in range(3)])
+        mt[idx + (0,)], mt[idx + (1,)], mt[idx + (2,)] = r[0], r[1] * B, r[2] * B
+    n0 = geo.sym1({"def_mesh": m})["normals"][0, 0]
+    n1 = geo.sym1({"def_mesh": mt})["normals"][0, 0]
+    r = matvec(T, list(n0))
+    nt = [r[0] * B, r[1], r[2]]
+    adm = [ge(M, 0), lt(M, S(0.95))]
+    obs = []
+    cr = [nt[1] * n1[2] - nt[2] * n1[1], nt[2] * n1[0] - nt[0] * n1[2], nt[0] * n1[1] - nt[1] * n1[0]]
+    for k in range(3):
+        obs.append(oblig.Ob("PG normal x true normal [%d]" % k, lhs=cr[k], rhs=ZERO, assume=adm,
+                            meta={"family": "Prandtl-Glauert-scaled normals are parallel to the normals of the stretched geometry"}))
+    obs.append(oblig.Ob("PG normal . true normal > 0", cond=le(sum((nt[k] * n1[k] for k in range(3)), ZERO), 0), assume=adm + [ne(n0[0] * n0[0] + n0[1] * n0[1] + n0[2] * n0[2], 0)],
+                        meta={"family": "Prandtl-Glauert-scaled normals point the same way as the normals of the stretched geometry"}))
+    run_obligations(rep, "PG normals vs stretched-geometry normals (one panel)", obs, timeout, levels=(2,), relate=[], family=lambda ob: "PG frame: " + ob.meta["family"],
+                    fixed={"M": 0.5})
+
+
+def replay_group(ss):
+    """both real models on floats, with sideslip: AeroPoint(compressible=True) against the explicit recipe of the property
+    (rotate, stretch, incompressible AeroPoint at alpha = beta = 0, scale, rotate back)"""
+    from props import groups
+
+    al, be, M = 4.0, 6.0, 0.6
+    ss = [K.surface(3, 5, False, name=s["name"]) for s in ss]  # full-span surfaces: a sideslip witness is meaningful for them
+    vals = {"alpha": al, "beta": be, "Mach_number": M, "v": 70.0, "rho": 1.1}
+    rng = np.random.default_rng(5)
+    meshes = {}
+    for k, s in enumerate(ss):
+        m = np.array(K.rect_mesh(s["mesh"].shape[0], s["mesh"].shape[1], s["symmetry"], jitter=0.0), dtype=float)
+        m[:, :, 0] += 0.3 * np.abs(m[:, :, 1]) + 3.0 * k  # sweep, and the surfaces apart
+        m[:, :, 2] += 0.1 * np.abs(m[:, :, 1]) + 0.5 * k
+        meshes[s["name"]] = m
+    pc = groups.aeropoint_problem(ss, compressible=True, meshes=meshes, vals=vals)
+    pc.run_model()
+    a, b = np.radians(al), np.radians(be)
+    ca, sa, cb, sb = np.cos(a), np.sin(a), np.cos(b), np.sin(b)
+    T = np.array([[cb * ca, -sb, cb * sa], [sb * ca, cb, sb * sa], [-sa, 0.0, ca]])
+    Bn = np.sqrt(1 - M * M)
+    mt = {n: (m @ T.T) * np.array([1.0, Bn, Bn]) for n, m in meshes.items()}
+    p0 = groups.aeropoint_problem(ss, compressible=False, meshes=mt, vals=dict(vals, alpha=0.0, beta=0.0))
+    p0.run_model()
+    bad = []
+    for s in ss:
+        n = s["name"]
+        Fc = np.asarray(pc.get_val("aero_point_0.aero_states.%s_sec_forces" % n), dtype=float)
+        F0 = np.asarray(p0.get_val("aero_point_0.aero_states.%s_sec_forces" % n), dtype=float)
+        ref = (F0 / np.array([Bn**4, Bn**3, Bn**3])) @ T
+        err = np.abs(Fc - ref).max() / max(1e-30, np.abs(ref).max())
+        if err > 1e-7:
+            bad.append("%s sectional forces differ from the Prandtl-Glauert recipe by %.3g (relative) at alpha=%g beta=%g M=%g" % (n, err, al, be, M))
+    return bool(bad), "; ".join(bad) or "AeroPoint(compressible=True) matches the explicit Prandtl-Glauert recipe"
